@@ -52,6 +52,7 @@ class Ctx:
         self.hook_events = 0
         self.notes = Counter()
         self.deadline = None
+        self.targets = {}
 
     # -- library calls ----------------------------------------------------
     def call(self, fn, *a, timeout=10.0, **k):
@@ -72,6 +73,10 @@ class Ctx:
     # -- bookkeeping --------------------------------------------------------
     def label(self, name, n=1):
         self.classes[name] += n
+
+    def target(self, value, label):
+        """steer Hypothesis' targeted phase toward the interesting region (ignored by the other drivers)"""
+        self.targets[label] = float(value)
 
     def mark_nontrivial(self, case, sample=True):
         h = canon.case_hash(case)
@@ -170,6 +175,7 @@ SHRINK_BUDGET_S = 25.0
 
 def run_hyp_unit(unit, tier, verif_seed, shard, nshards, kf):
     from hypothesis import given, settings, seed, HealthCheck, Phase, Verbosity
+    from hypothesis import target as hyp_target
     from hypothesis import errors as herr
 
     ctx = Ctx(unit.name)
@@ -186,9 +192,15 @@ def run_hyp_unit(unit, tier, verif_seed, shard, nshards, kf):
                 # only the best-known example is re-evaluated for real.
                 if state["last"] is None or canon.case_hash(case) != canon.case_hash(state["last"].case):
                     return
+            ctx.targets = {}
             fails = _classify(run_check(unit, case, ctx), kf, ctx)
             fails = [f for f in fails if f.key not in muted]
             if not fails:
+                for lab, val in ctx.targets.items():
+                    try:
+                        hyp_target(val, label=lab)
+                    except Exception:
+                        pass
                 return
             if state["target"] is None:
                 state["target"] = fails[0].key
